@@ -117,3 +117,49 @@ theorem blockInv_step {s s' : Sys} {op : Op} (hi : BlockInv s) (h : step s op = 
     | grind [SubP.load, persistStatus, find?_hid]
 
 end Jade.Sys
+
+namespace Jade.Sys
+
+theorem sc_step {s s' : Sys} {op : Op} (h : step s op = some s') : s'.sc = s.sc := by
+  cases op <;> step_cases h <;> frame_all <;> rfl
+
+theorem sc_run {s s' : Sys} (ops : List Op) (h : run s ops = some s') : s'.sc = s.sc := by
+  induction ops generalizing s with
+  | nil => simp [run] at h; subst h; rfl
+  | cons op ops ih =>
+    simp only [run] at h
+    split at h
+    · next s1 hs => rw [ih h, sc_step hs]
+    · cases h
+
+theorem blockInv_run {s s' : Sys} (ops : List Op) (hi : BlockInv s) (h : run s ops = some s') : BlockInv s' := by
+  induction ops generalizing s with
+  | nil => simp [run] at h; subst h; exact hi
+  | cons op ops ih =>
+    simp only [run] at h
+    split at h
+    · next s1 hs => exact ih (blockInv_step hi hs) h
+    · cases h
+
+theorem rowOnDisk_run {s s' : Sys} (ops : List Op) (h : run s ops = some s') (r : Row) (hr : RowOnDisk s r) :
+    RowOnDisk s' r := by
+  induction ops generalizing s with
+  | nil => simp [run] at h; subst h; exact hr
+  | cons op ops ih =>
+    simp only [run] at h
+    split at h
+    · next s1 hs => exact ih h (rowOnDisk_step hs r hr)
+    · cases h
+
+/-- the moment a job's command is started, every job configured as blocking it has a recorded outcome -/
+theorem start_has_rows {s s' : Sys} (hi : BlockInv s) (p : Pid) (j : JobId)
+    (h : step s (.nodeStart p j) = some s') : ∀ b ∈ s.sc.blockers j, HasRow s b := by
+  obtain ⟨-, -, -, -, k5, -⟩ := hi
+  step_cases h
+  rename_i n hg hp
+  intro b hb
+  rcases k5 p true n hp j hg.1 b hb with hk | hk
+  · rw [hg.2.1] at hk; cases hk
+  · exact hk
+
+end Jade.Sys
